@@ -156,10 +156,22 @@ def run(program):
             return out
 
         ctx.model.reseed(program.get("rng0", 3))
-        # 1. every call alone (reference; resolves dispatch single-threaded)
-        ref = []
-        for tid, t in enumerate(tasks):
-            ref.append([_outcome(c["fn"], resolve(tid, c["args"])) for c in t.get("calls", [])])
+        # 1. every call alone (reference).  warm: in this process (also resolves dispatch single-threaded); cold: in a
+        #    forked twin, so that the threaded phase below is the FIRST use of every routine in this process (first-use
+        #    races: lazily filled module-level caches).  No baton switch ever happens inside plum's frames, so its lazy
+        #    resolution still runs atomically.
+        def reference():
+            return [[_outcome(c["fn"], resolve(tid, c["args"])) for c in t.get("calls", [])] for tid, t in enumerate(tasks)]
+
+        if spec.get("cold"):
+            from .crashenum import _fork_run
+            tw = _fork_run(lambda: {"status": "ok", "ref": reference()})
+            if tw.get("status") != "ok":
+                raise RuntimeError("reference twin failed: %r" % (tw, ))
+            ref = tw["ref"]
+            stats["thread_runs_cold"] = 1
+        else:
+            ref = reference()
         if not ctx.model.in_sync():
             raise _V("I-RNG", {"what": "process-wide NumPy generator state differs from the reference model after the "
                                        "single-threaded reference calls", "rng_touched_by": world.RNG_TOUCH[-6:]})
@@ -264,14 +276,21 @@ def _line_sweep(program):
     """Single pre-emption at EVERY distinct source line of cola that the first thread's calls execute (first and last
     occurrence): thread 0 runs up to that line, thread 1 then runs its calls to completion, thread 0 resumes.  Systematic where
     the seeded schedules are sparse: a window of one line between two accesses to a shared resource is hit for certain."""
+    from .crashenum import _fork_run
     base = json.loads(json.dumps(program))
     base["threads"].pop("mode", None)
     cal = json.loads(json.dumps(base))
     cal["threads"].update(sw=[], record_lines=True)
-    r0 = run(cal)
-    if r0["status"] != "ok":
+
+    def calibrate():
+        r = run(cal)
+        r["_lines"] = cal.get("_lines") or []
+        return r
+
+    r0 = _fork_run(calibrate)  # every run of the sweep in its own forked child: nothing one run leaves behind reaches the next
+    if r0.get("status") != "ok":
         return r0
-    lines = cal.get("_lines") or []
+    lines = [tuple(w) if w is not None else None for w in r0.pop("_lines")]
     first, last = {}, {}
     for i, w in enumerate(lines, 1):
         if w is None:
@@ -289,7 +308,9 @@ def _line_sweep(program):
     for e in points:
         p = json.loads(json.dumps(base))
         p["threads"]["sw"] = [[e, 1]]
-        r = run(p)
+        r = _fork_run(lambda p=p: run(p))
+        if r.get("status") in ("env_crash", "harness_error") and "stats" not in r:
+            r = dict(r, stats={}, violation=None, program=p, events_digest=None)
         for k, v in (r.get("stats") or {}).items():
             stats[k] += v
         if r["status"] != "ok":
@@ -312,8 +333,11 @@ def _operand(g, dt=None):
     n = g.choice([3, 4, 5, 6])
     dt = dt or g.choice(["f8", "f8", "f4", "c16"])
     s = g.randrange(1 << 20)
-    kind = g.choice(["dense", "generic", "generic", "sum", "kron", "blockdiag", "diag"])
+    kind = g.choice(["dense", "generic", "generic", "sum", "kron", "blockdiag", "diag", "mid", "mid"])
     P = lambda r: {"k": "ann", "name": "PSD", "of": r}  # noqa: E731
+    if kind == "mid":  # start vectors / probe blocks beyond the sizes at which an implementation may switch strategy
+        n = g.choice([1100, 1500])
+        return P({"k": g.choice(["diag", "tridiag"]), "n": n, "dtype": dt, "seed": s, **({"pos": True} if True else {})})
     if kind in ("dense", "generic"):
         return P({"k": kind, "n": n, "dtype": dt, "seed": s, "sym": "psd"})
     if kind == "diag":
@@ -369,7 +393,8 @@ def gen(g, run_seed, tier="quick", fixed=None, p=None):
         tasks.append({"user_draws": [[g.choice(["randn", "rand", "normal", "randint"]), g.choice([1, 2, 3])]
                                      for _ in range(g.choice([2, 4, 6]))]})
     return {"property": "C17", "run_seed": run_seed, "rng0": g.randrange(2**32), "tier": tier, "config": {"threads": True},
-            "threads": {"tasks": tasks, "shared": shared, "p": p if p is not None else g.choice([0.01, 0.03, 0.1, 0.3])}}
+            "threads": {"tasks": tasks, "shared": shared, "p": p if p is not None else g.choice([0.01, 0.03, 0.1, 0.3]),
+                        "cold": g.random() < 0.5}}
 
 
 def line_sweep_programs():
@@ -385,11 +410,22 @@ def line_sweep_programs():
                 c1["args"]["key"] = 7
             if other[0] not in KEYED_BY_ARG:
                 c2["args"]["key"] = 11
-            prog = {"property": "C17", "run_seed": 0, "rng0": 5, "config": {"threads": "line_sweep"},
-                    "threads": {"mode": "line_sweep", "shared": {}, "p": 0.0,
-                                "tasks": [{"ops": {"A": A}, "calls": [c1]}, {"ops": {"A": B}, "calls": [c2]},
-                                          {"user_draws": [["randn", 2], ["rand", 1]]}]}}
-            out.append({"name": "threads-line-sweep/%s<-%s" % (r[0], other[0]), "program": prog})
+            for variant in ("warm", "cold", "cold-mid"):
+                if variant == "cold-mid":  # both threads on operands of the same mid size, same key: same (key, n, dtype)
+                    if r[0] in ("nystrom", "randomized_svd", "lobpcg", "slq") or other[0] != "lanczos" and r[0] != other[0]:
+                        continue
+                    M1 = {"k": "ann", "name": "PSD", "of": {"k": "diag", "n": 1100, "dtype": "f8", "seed": 1, "pos": True}}
+                    M2 = {"k": "ann", "name": "PSD", "of": {"k": "tridiag", "n": 1100, "dtype": "f8", "seed": 2, "symm": True}}
+                    d1, d2 = json.loads(json.dumps(c1)), json.loads(json.dumps(c2))
+                    if "key" in d1["args"]:
+                        d2["args"]["key"] = d1["args"]["key"]
+                    tasks = [{"ops": {"A": M1}, "calls": [d1]}, {"ops": {"A": M2}, "calls": [d2]}]
+                else:
+                    tasks = [{"ops": {"A": A}, "calls": [c1]}, {"ops": {"A": B}, "calls": [c2]},
+                             {"user_draws": [["randn", 2], ["rand", 1]]}]
+                prog = {"property": "C17", "run_seed": 0, "rng0": 5, "config": {"threads": "line_sweep"},
+                        "threads": {"mode": "line_sweep", "shared": {}, "p": 0.0, "cold": variant != "warm", "tasks": tasks}}
+                out.append({"name": "threads-line-sweep/%s/%s<-%s" % (variant, r[0], other[0]), "program": prog})
     return out
 
 
